@@ -7039,6 +7039,11 @@ impl<'a> Parser<'a> {
                     {
                         self.parse_keywords(&[Keyword::IF, Keyword::NOT, Keyword::EXISTS])
                             || if_not_exists
+                    } else if if_not_exists {
+                        // read above for ADD IF NOT EXISTS PARTITION: this dialect has no
+                        // ADD [COLUMN] IF NOT EXISTS, and the clause must not be dropped
+                        return self
+                            .expected("PARTITION after ADD IF NOT EXISTS", self.peek_token());
                     } else {
                         false
                     };
@@ -7172,12 +7177,12 @@ impl<'a> Parser<'a> {
                     name,
                     cascade,
                 }
-            } else if self.parse_keywords(&[Keyword::PRIMARY, Keyword::KEY])
-                && dialect_of!(self is MySqlDialect | GenericDialect)
+            } else if dialect_of!(self is MySqlDialect | GenericDialect)
+                && self.parse_keywords(&[Keyword::PRIMARY, Keyword::KEY])
             {
                 AlterTableOperation::DropPrimaryKey
-            } else if self.parse_keyword(Keyword::PROJECTION)
-                && dialect_of!(self is ClickHouseDialect|GenericDialect)
+            } else if dialect_of!(self is ClickHouseDialect|GenericDialect)
+                && self.parse_keyword(Keyword::PROJECTION)
             {
                 let if_exists = self.parse_keywords(&[Keyword::IF, Keyword::EXISTS]);
                 let name = self.parse_identifier(false)?;
